@@ -116,6 +116,65 @@ def balanced(txt, i, open_c, close_c):
     return -1
 
 
+def const_env(txt):
+    """usize constants and nullary const fns of the crate, as unevaluated expression texts"""
+    env = {}
+    for m in re.finditer(r"const\s+(\w+)\s*:\s*usize\s*=\s*([^;]+);", txt):
+        env[m.group(1)] = m.group(2)
+    for m in re.finditer(r"const\s+fn\s+(\w+)\s*\(\s*\)\s*->\s*usize\s*\{([^{}]*)\}", txt):
+        env[m.group(1)] = m.group(2)
+    # local bindings of constant expressions (lowest priority)
+    for m in re.finditer(r"let\s+(\w+)\s*(?::\s*usize\s*)?=\s*([^;{}]+);", txt):
+        env.setdefault(m.group(1), m.group(2))
+    return env
+
+
+def const_eval(expr, env, depth=0):
+    """value of a constant usize expression (literals, + - * /, parentheses, constants, nullary const fn calls) or None"""
+    if depth > 20:
+        return None
+    e = expr.strip()
+    e = re.sub(r"\b(\w+::)+", "", e)                 # drop paths
+    e = re.sub(r"(\w+)\s*\(\s*\)", r"\1", e)        # f() -> f
+    e = re.sub(r"(?<=\d)_(?=\d)", "", e)             # 1_0 -> 10
+    e = re.sub(r"(\d)(usize|u\d+|i\d+)\b", r"\1", e)  # suffixes
+    e = re.sub(r"\bas\s+usize\b", "", e)
+    if not re.fullmatch(r"[\w\s+\-*/()]+", e):
+        return None
+    def name(m):
+        n = m.group(0)
+        if re.fullmatch(r"\d+|0x[0-9a-fA-F]+|0b[01]+|0o[0-7]+", n):
+            return n
+        if n in env:
+            v = const_eval(env[n], env, depth + 1)
+            return "(%d)" % v if v is not None else "None"
+        return "None"
+    e2 = re.sub(r"\b\w+\b", name, e)
+    if "None" in e2:
+        return None
+    try:
+        v = eval(e2.replace("/", "//"), {"__builtins__": {}}, {})
+        return int(v)
+    except Exception:
+        return None
+
+
+def rcvar_kind(txt):
+    """'Rc' / 'Arc' / None: what `pub type Rcvar = X<Variable>` denotes in this (cfg-resolved) text"""
+    m = re.search(r"pub\s+type\s+Rcvar\s*=\s*([\w:]+)\s*<\s*Variable\s*>\s*;", txt)
+    if not m:
+        return None
+    x = m.group(1)
+    last = x.split("::")[-1]
+    if last in ("Rc", "Arc") and ("::" not in x or x in ("std::rc::Rc", "std::sync::Arc", "alloc::rc::Rc", "alloc::sync::Arc", "::std::rc::Rc", "::std::sync::Arc")):
+        if "::" in x or not re.search(r"use\s+[\w:]+\s+as\s+%s\s*;" % last, txt):
+            return last
+    mu = re.findall(r"use\s+(?:::)?(std|alloc)::(rc::Rc|sync::Arc)\s+as\s+%s\s*;" % re.escape(last), txt)
+    if len(mu) == 1:
+        return mu[0][1].split("::")[-1]
+    return None
+
+
 def fn_body(txt, header_regex):
     """body (between the braces) of the first item whose header matches, or None"""
     m = re.search(header_regex, txt)
@@ -138,7 +197,7 @@ def parse_expr(s, i):
         return ("list", items), i
     j = i
     depth = 0
-    while j < n and (depth > 0 or s[j] not in "()[],"):
+    while j < n and (depth > 0 or s[j] not in "()[],{}"):
         if s[j] == "<":
             depth += 1
         elif s[j] == ">":
@@ -151,7 +210,38 @@ def parse_expr(s, i):
     if j < n and s[j] == "(":
         args, j = parse_items(s, j + 1, ")")
         return ("call", head, args), j
+    k = j
+    while k < n and s[k].isspace():
+        k += 1
+    if k < n and s[k] == "{" and re.match(r"[A-Za-z_][\w:]*$", head):
+        fields, k = parse_fields(s, k + 1)
+        return ("struct", head, fields), k
     return ("atom", head), j
+
+
+def parse_fields(s, i):
+    """`name: expr, ...}` (or shorthand `name,`) -> dict"""
+    fields = {}
+    n = len(s)
+    while True:
+        while i < n and s[i].isspace():
+            i += 1
+        if i < n and s[i] == "}":
+            return fields, i + 1
+        m = re.match(r"([A-Za-z_]\w*)\s*(:)?", s[i:])
+        if not m:
+            raise ValueError("field expected at %r" % s[i:i + 20])
+        name = m.group(1)
+        i += m.end()
+        if m.group(2):
+            e, i = parse_expr(s, i)
+        else:
+            e = ("atom", name)
+        fields[name] = e
+        while i < n and s[i].isspace():
+            i += 1
+        if i < n and s[i] == ",":
+            i += 1
 
 
 def parse_items(s, i, close):
@@ -195,6 +285,8 @@ def interp_type(e):
         if last == "None":
             return "None"
         raise KeyError(head)
+    if last == "new" and re.search(r"\bVec\b", head) and not e[2]:
+        return ("list", [])          # Vec::new() / vec![]
     if last == "Some":
         return "(Some %s)" % interp_type(e[2][0])
     # wrappers (Box::new, vec! internals, into_vec, ...): the payload is the last argument that means something
@@ -208,26 +300,105 @@ def interp_type(e):
     raise KeyError(head)
 
 
-def read_signatures(txt, broken):
-    sigs = {}
-    for m in re.finditer(r"Signature::new\s*\(", txt):
-        end = balanced(txt, m.end() - 1, "(", ")")
+def subst(e, env):
+    if e[0] == "atom":
+        return env.get(e[1], e)
+    if e[0] == "list":
+        return ("list", [subst(x, env) for x in e[1]])
+    if e[0] == "call":
+        return ("call", e[1], [subst(x, env) for x in e[2]])
+    if e[0] == "struct":
+        return ("struct", e[1], {k: subst(v, env) for k, v in e[2].items()})
+    return e
+
+
+def signature_parts(e, helpers, depth=0):
+    """expression tree of type Signature -> (inputs expr, variadic expr), looking through `Signature::new`, a
+    `Signature { inputs, variadic }` literal and (one level of) free helper functions that just build one"""
+    if e[0] == "call":
+        last = e[1].split("::")[-1].strip()
+        if e[1].replace(" ", "").endswith("Signature::new") and len(e[2]) == 2:
+            return e[2][0], e[2][1]
+        if last in helpers and depth < 3:
+            params, body = helpers[last]
+            if len(params) == len(e[2]):
+                return signature_parts(subst(body, dict(zip(params, e[2]))), helpers, depth + 1)
+    if e[0] == "struct" and e[1].split("::")[-1].strip() == "Signature" and set(e[2]) == {"inputs", "variadic"}:
+        return e[2]["inputs"], e[2]["variadic"]
+    raise ValueError("not a recognised Signature construction: %s" % (e[1] if len(e) > 1 else e[0]))
+
+
+def read_helpers(txt):
+    """free functions `fn f(p: T, ..) -> Signature { <single expression> }`"""
+    helpers = {}
+    for m in re.finditer(r"fn\s+(\w+)\s*\(([^)]*)\)\s*->\s*Signature\s*\{", txt):
+        end = balanced(txt, m.end() - 1, "{", "}")
         if end < 0:
             continue
-        # the struct being constructed: `Name { signature: Signature::new(`
-        pre = txt[max(0, m.start() - 200):m.start()]
-        mm = re.findall(r"(\w+)\s*\{\s*signature\s*:\s*$", pre)
-        if not mm:
-            continue
-        name = mm[-1]
-        if "$" in txt[m.start() - 40:end]:
-            continue            # the macro definition itself
+        body = txt[m.end():end - 1].strip()
+        params = [p.split(":")[0].strip() for p in m.group(2).split(",") if p.strip() and not p.strip().startswith("&self") and p.strip() != "self"]
         try:
-            args, _ = parse_items(txt, m.end(), ")")
-            if len(args) != 2:
-                raise ValueError("Signature::new with %d arguments" % len(args))
-            inputs = interp_type(args[0])
-            var = interp_type(args[1])
+            e, j = parse_expr(body, 0)
+            if body[j:].strip() == "":
+                helpers[m.group(1)] = (params, e)
+        except (ValueError, IndexError):
+            pass
+    return helpers
+
+
+def read_constructor(txt, struct, helpers):
+    """the Signature built by `impl <struct> { fn new() -> .. { <lets>; <struct> { signature: e } } }` as (inputs, variadic) expressions"""
+    m = re.search(r"impl\s+%s\s*\{" % re.escape(struct), txt)
+    while m:
+        end = balanced(txt, m.end() - 1, "{", "}")
+        block = txt[m.end():end - 1]
+        mn = re.search(r"fn\s+new\s*\([^)]*\)\s*(->\s*[\w:]+\s*)?\{", block)
+        if mn:
+            bend = balanced(block, mn.end() - 1, "{", "}")
+            body = block[mn.end():bend - 1]
+            break
+        m = re.search(r"impl\s+%s\s*\{" % re.escape(struct), txt[end:])
+        if m:
+            txt = txt[end:]
+    else:
+        raise ValueError("no `fn new` found")
+    env = {}
+    i = 0
+    n = len(body)
+    while True:
+        while i < n and body[i].isspace():
+            i += 1
+        ml = re.match(r"let\s+(?:mut\s+)?(\w+)\s*(?::[^=;]*)?=\s*", body[i:])
+        if ml:
+            e, i = parse_expr(body, i + ml.end())
+            env[ml.group(1)] = subst(e, env)
+            while i < n and body[i].isspace():
+                i += 1
+            if i < n and body[i] == ";":
+                i += 1
+            else:
+                raise ValueError("`;` expected after let")
+            continue
+        e, i = parse_expr(body, i)
+        break
+    e = subst(e, env)
+    last = e[1].split("::")[-1].strip() if len(e) > 1 and isinstance(e[1], str) else ""
+    if e[0] == "struct" and last in (struct, "Self") and "signature" in e[2]:
+        return signature_parts(e[2]["signature"], helpers)
+    if e[0] == "call" and last in ("new", struct):   # e.g. Self::from_signature(..): not understood
+        raise ValueError("constructor delegates to %s" % e[1])
+    raise ValueError("`%s { signature: .. }` not found at the end of new()" % struct)
+
+
+def read_signatures(txt, structs, broken):
+    """signatures of the given structs (those that get registered)"""
+    sigs = {}
+    helpers = read_helpers(txt)
+    for name in structs:
+        try:
+            inputs_e, var_e = read_constructor(txt, name, helpers)
+            inputs = interp_type(inputs_e)
+            var = interp_type(var_e)
             if not isinstance(inputs, tuple):
                 raise ValueError("inputs are not a list")
             sigs[name] = "mkSig [" + "; ".join(inputs[1]) + "] " + var
@@ -244,15 +415,29 @@ def expand_source_macros(fns):
                  "array": "Array", "array_number": "TypedArray(Box::new(ArgumentType::Number))", "array_string": "TypedArray(Box::new(ArgumentType::String))"}
         ts = ["ArgumentType::" + names[p] for p in parts]
         return ts[0] if len(ts) == 1 else "ArgumentType::Union([" + ", ".join(ts) + "])"
-    out = []
+    out = [re.sub(r"macro_rules!\s*\w+\s*\{", "macro_rules_removed {", fns)]
     for m in re.finditer(r"defn!\s*[\(\{]", fns):
         end = balanced(fns, m.end() - 1, fns[m.end() - 1], ")" if fns[m.end() - 1] == "(" else "}")
         inner = fns[m.end():end - 1]
+        if "$" in inner or "," not in inner:
+            continue
         name, rest = inner.split(",", 1)
         rest = re.sub(r"arg!\s*\(([^()]*)\)", arg, rest)
         rest = re.sub(r"vec!\s*\[", "[", rest)
-        out.append("%s { signature: Signature::new(%s)" % (name.strip(), rest.strip().rstrip(",")))
+        name = name.strip()
+        out.append("impl %s { pub fn new() -> %s { %s { signature: Signature::new(%s) } } }" % (name, name, name, rest.strip().rstrip(",")))
     return "\n".join(out)
+
+
+BASELINE = os.path.join(os.path.dirname(os.path.abspath(__file__)), "tables_baseline.json")
+
+
+def load_baseline():
+    try:
+        import json
+        return json.load(open(BASELINE))
+    except Exception:
+        return None
 
 
 def run():
@@ -272,52 +457,81 @@ def run():
         sig_txt = exp
 
     # ---- binding powers (Token::lbp) and the projection-stop threshold as it is used
+    env = const_env(whole)
     body = fn_body(whole, r"fn\s+lbp\s*\(\s*&self\s*\)\s*->\s*usize\s*\{")
     lbp = {}
     default = None
+
+    def pats(text):
+        return [n.strip().lstrip("&").strip().split("::")[-1] for n in re.sub(r"\([^)]*\)|\{[^}]*\}", "", text).split("|")]
+
     if body is None:
         broken.append("lexer.rs: Token::lbp not found")
     else:
-        mb = re.search(r"match\s+\*?self\s*\{", body)
-        arms = body[mb.end():] if mb else body
-        for arm in re.finditer(r"((?:[A-Za-z_:]+\s*\|\s*)*[A-Za-z_:]+)\s*(?:\([^)]*\))?\s*=>\s*(\d+)\s*,?", arms):
-            for n in arm.group(1).split("|"):
-                n = n.strip().split("::")[-1]
-                if n == "_":
-                    default = int(arm.group(2))
-                elif n in TOKENS:
-                    lbp[n] = int(arm.group(2))
-                else:
-                    broken.append("lexer.rs: unknown token %r in lbp" % n)
-        if default is None and len(lbp) < len(TOKENS):
-            broken.append("lexer.rs: lbp has no default arm")
+        body_na = re.sub(r"#\[[^\]]*\]", "", body)
+        chain = list(re.finditer(r"if\s+match\s+\*?self\s*\{\s*([^=]+?)\s*=>\s*true\s*,\s*_\s*=>\s*false\s*,?\s*\}\s*\{\s*([^{}]+?)\s*\}", body_na)) or \
+            list(re.finditer(r"if\s+matches!\s*\(\s*\*?self\s*,\s*([^)]+?)\)\s*\{\s*([^{}]+?)\s*\}", body_na))
+        if chain:
+            # an if / else-if chain of `matches!` tests: earlier tests win
+            for m in chain:
+                v = const_eval(m.group(2), env)
+                if v is None:
+                    broken.append("lexer.rs: binding power %r not understood" % m.group(2)[:40])
+                    continue
+                for n in pats(m.group(1)):
+                    if n in TOKENS:
+                        lbp.setdefault(n, v)
+                    else:
+                        broken.append("lexer.rs: unknown token %r in lbp" % n)
+            me = re.search(r"else\s*\{\s*([^{}]+?)\s*\}\s*$", body_na.strip())
+            default = const_eval(me.group(1), env) if me else None
+            if default is None:
+                broken.append("lexer.rs: lbp has no final else")
+        else:
+            mb = re.search(r"match\s+\*?self\s*\{", body_na)
+            arms = body_na[mb.end():] if mb else body_na
+            for arm in re.finditer(r"((?:&?\s*[A-Za-z_:]+(?:\s*\([^)]*\)|\s*\{[^}]*\})?\s*\|\s*)*&?\s*[A-Za-z_:]+(?:\s*\([^)]*\)|\s*\{[^}]*\})?)\s*=>\s*([^,{}]+?)\s*(?:,|\}\s*$)", arms):
+                v = const_eval(arm.group(2), env)
+                if v is None:
+                    broken.append("lexer.rs: binding power %r not understood" % arm.group(2)[:40])
+                    continue
+                for n in pats(arm.group(1)):
+                    if n == "_":
+                        default = v
+                    elif n in TOKENS:
+                        lbp.setdefault(n, v)
+                    else:
+                        broken.append("lexer.rs: unknown token %r in lbp" % n)
+            if default is None and len(lbp) < len(TOKENS):
+                broken.append("lexer.rs: lbp has no default arm")
         if not lbp:
             broken.append("lexer.rs: no binding powers read")
         for t in TOKENS:
             lbp.setdefault(t, default or 0)
-    # threshold: `t.lbp() < C` (or `<=`, or mirrored), C a constant of parser.rs
+    # threshold of the stop test `<token>.lbp() < C` (or `<=`, or mirrored `C > <token>.lbp()`), wherever it is written;
+    # the loop test `rbp < <token>.lbp()` has the binding power on the other side and is not a candidate
     stop = None
-    consts = {m.group(1): int(m.group(2)) for m in re.finditer(r"const\s+(\w+)\s*:\s*usize\s*=\s*(\d+)\s*;", whole)}
-    prhs = fn_body(whole, r"fn\s+projection_rhs\s*\(")
-    if prhs is None:
-        broken.append("parser.rs: projection_rhs not found")
+    cands = []
+    for m in re.finditer(r"\.lbp\(\)\s*(<=|<)\s*([\w:]+(?:\s*\(\s*\))?|\d+)", whole):
+        cands.append((m.group(1), m.group(2)))
+    for m in re.finditer(r"([\w:]+(?:\s*\(\s*\))?|\d+)\s*(>=|>)\s*[\w.]+(?:\([^()]*\))?\.lbp\(\)", whole):
+        cands.append(({">": "<", ">=": "<="}[m.group(2)], m.group(1)))
+    vals = set()
+    for op, c in cands:
+        v = const_eval(c, env)
+        if v is not None:
+            vals.add(v if op == "<" else v + 1)
+    if len(vals) == 1:
+        stop = vals.pop()
     else:
-        cands = []
-        for m in re.finditer(r"\.lbp\(\)\s*(<=|<)\s*(\w+)", prhs):
-            cands.append((m.group(1), m.group(2)))
-        for m in re.finditer(r"(\w+)\s*(>=|>)\s*\w+\.lbp\(\)", prhs):
-            cands.append(({">": "<", ">=": "<="}[m.group(2)], m.group(1)))
-        vals = set()
-        for op, c in cands:
-            v = consts.get(c, int(c) if c.isdigit() else None)
-            if v is not None:
-                vals.add(v if op == "<" else v + 1)
-        if len(vals) == 1:
-            stop = vals.pop()
-        else:
-            broken.append("parser.rs: projection-stop comparison not understood (%s)" % cands)
+        broken.append("parser.rs: projection-stop comparison not understood (%s)" % cands[:4])
     if stop is None:
-        stop = consts.get("PROJECTION_STOP", 0)
+        stop = const_eval("PROJECTION_STOP", env) or 0
+    base = load_baseline()
+    if any(b.startswith(("lexer.rs", "parser.rs")) for b in broken) and base:
+        # not understood: the model keeps the tables of the baseline tree (the obligation stays broken)
+        lbp, stop = base["lbp"], base["stop"]
+        notes.append("binding powers not understood: baseline tables used for the model")
     out.append("Inductive tk := " + " | ".join("K" + t for t in TOKENS) + ".")
     out.append("Definition gen_lbp (t : tk) : Z :=\n  match t with\n" +
                "\n".join("  | K%s => %d" % (t, lbp.get(t, 0)) for t in TOKENS) + "\n  end.")
@@ -325,19 +539,27 @@ def run():
     out.append("Definition gen_projection_stop : Z := %d." % stop)
     out.append("")
 
-    # ---- signatures (every `X { signature: Signature::new(..) }`) and registrations
-    sigs = read_signatures(sig_txt, broken)
+    # ---- registrations, then the signature built by the constructor of every registered struct
     reg_body = fn_body(whole, r"fn\s+register_builtin_functions\s*\(")
     regs = []
     if reg_body is None:
         broken.append("runtime.rs: register_builtin_functions not found")
     else:
-        regs = re.findall(r'"(\w+)"\s*,\s*(?:Box::new\s*\(\s*)?(\w+)::new\s*\(\s*\)', reg_body)
+        pair = r'"(\w+)"\s*,\s*(?:[\w:]+\s*\(\s*)?(\w+)::new\s*\(\s*\)'
+        regs = re.findall(pair, reg_body)
         n_calls = len(re.findall(r'"\w+"', reg_body))
+        if len(regs) == 0:
+            # the (name, implementation) pairs may be tabulated elsewhere and registered in a loop
+            implementors = set(re.findall(r"impl\s+Function\s+for\s+(\w+)", whole))
+            regs = [(nm, st) for nm, st in re.findall(pair, whole) if st in implementors]
+            n_calls = len(regs)
+            if regs:
+                notes.append("registrations read from a table outside register_builtin_functions")
         if len(regs) == 0:
             broken.append("runtime.rs: no builtin registrations found")
         elif n_calls != len(regs):
             broken.append("runtime.rs: %d string literals but %d registrations understood" % (n_calls, len(regs)))
+    sigs = read_signatures(sig_txt, list(dict.fromkeys(st for _, st in regs)), broken)
     out.append("(* registration order of register_builtin_functions: (name, implementing struct, signature of that struct) *)")
     rows = []
     for nm, st in regs:
@@ -345,6 +567,9 @@ def run():
             broken.append("functions.rs: no signature read for %s" % st)
             continue
         rows.append("  (%s, %s, %s)" % (coq_str(nm), coq_str(st), sigs[st]))
+    if any(b.startswith(("functions.rs", "runtime.rs")) for b in broken) and base:
+        rows = base["rows"]
+        notes.append("registrations / signatures not understood: baseline registry used for the model")
     out.append("Definition gen_registry : list (str * str * signature) := [\n" + ";\n".join(rows) + "\n].")
     out.append("")
 
@@ -352,12 +577,18 @@ def run():
     lib = raw.get("lib.rs", "")
     fns = raw.get("functions.rs", "")
     allraw = "\n".join(raw.values())
+    exp_sync = expanded_source(("sync",)) if exp is not None else None
+    if exp is not None and exp_sync is not None:
+        rc_default, rc_sync = rcvar_kind(exp) == "Rc", rcvar_kind(exp_sync) == "Arc"
+    else:
+        rc_default = bool(re.search(r'#\[cfg\(not\(feature\s*=\s*"sync"\)\)\]\s*pub\s+type\s+Rcvar\s*=\s*(?:std::rc::)?Rc<Variable>\s*;', lib))
+        rc_sync = bool(re.search(r'#\[cfg\(feature\s*=\s*"sync"\)\]\s*pub\s+type\s+Rcvar\s*=\s*(?:std::sync::)?Arc<Variable>\s*;', lib))
     facts = {
-        "rcvar_rc_without_sync": bool(re.search(r'#\[cfg\(not\(feature\s*=\s*"sync"\)\)\]\s*pub\s+type\s+Rcvar\s*=\s*(?:std::rc::)?Rc<Variable>\s*;', lib)),
-        "rcvar_arc_with_sync": bool(re.search(r'#\[cfg\(feature\s*=\s*"sync"\)\]\s*pub\s+type\s+Rcvar\s*=\s*(?:std::sync::)?Arc<Variable>\s*;', lib)),
+        "rcvar_rc_without_sync": rc_default,
+        "rcvar_arc_with_sync": rc_sync,
         "function_requires_send_sync": bool(re.search(r"pub\s+trait\s+Function\s*:\s*(Sync\s*\+\s*Send|Send\s*\+\s*Sync)\s*\{", allraw)),
         # a lazily initialised immutable static of type Runtime (what the initialiser registers is decided by behaviour: C06/C15)
-        "default_runtime_lazy_static": bool(re.search(r"lazy_static!\s*\{[^{}]*pub\s+static\s+ref\s+DEFAULT_RUNTIME\s*:\s*Runtime\s*=", lib)),
+        "default_runtime_lazy_static": bool(re.search(r"lazy_static!\s*\{[^{}]*pub\s+static\s+ref\s+DEFAULT_RUNTIME\s*:\s*Runtime\s*=", allraw)),
     }
     sites = {"interior_mutability": [], "unsafe": [], "static_mut": [], "rc_outside_alias": []}
     for fn, txt in raw.items():
@@ -371,6 +602,10 @@ def run():
                 sites["static_mut"].append("%s:%d" % (fn, i))
             if re.search(r"\bRc\b", line) and not re.search(r"pub\s+type\s+Rcvar\s*=\s*(?:std::rc::)?Rc<Variable>\s*;", line):
                 sites["rc_outside_alias"].append("%s:%d" % (fn, i))
+    if exp_sync is not None:
+        # what matters is an `Rc` that is still compiled when the `sync` feature is on
+        code = re.sub(r"#\[doc[^\]]*\]|///[^\n]*|//![^\n]*", "", exp_sync)
+        sites["rc_outside_alias"] = ["sync-expansion:%d" % m.start() for m in re.finditer(r"\bRc\b", code)]
     for k, v in facts.items():
         out.append("Definition gen_%s : bool := %s." % (k, "true" if v else "false"))
     for k, v in sites.items():
@@ -378,10 +613,20 @@ def run():
     out.append("")
     vlib.write_if_changed(os.path.join(vlib.COQ, "theories", "Gen", "Tables.v"), "\n".join(out) + "\n")
     run.notes = notes
+    run.parsed = {"lbp": lbp, "stop": stop, "rows": rows}
     return broken
 
 
 run.notes = []
 
+run.parsed = {}
+
 if __name__ == "__main__":
-    print(run(), run.notes)
+    import sys
+    b = run()
+    print(b, run.notes)
+    if "--write-baseline" in sys.argv:
+        assert not b, "the tree is not understood: no baseline written"
+        import json
+        json.dump(run.parsed, open(BASELINE, "w"), indent=1)
+        print("baseline written")
